@@ -267,7 +267,7 @@ func vC13RuleVar(key string, max int) {
 		vAssume(vNoByte(tail, ','))
 	}
 	text := key + tail
-	switch vndChoice("carrier", 4) {
+	switch vndChoice("carrier", 5) {
 	case 0:
 		vC13Call("Var(string) "+key, func() { _ = Var("a1", text) })
 	case 1:
@@ -276,6 +276,10 @@ func vC13RuleVar(key string, max int) {
 		vC13Call("Var([]string) "+key, func() { _ = Var([]string{"1", "a"}, text) })
 	case 3:
 		vC13Call("Url "+key, func() { _ = Url("h?k=a1&j=2", NewRule().Set("k", text)) })
+	case 4:
+		vC13Call("Map "+key, func() {
+			_ = Map(map[string]interface{}{"k": "a1", "n": 5, "l": []int{1}}, NewRule().Set("k", text).Set("n", text).Set("l", text))
+		})
 	}
 	vReach("end")
 }
